@@ -30,7 +30,7 @@ MANIFEST = {
             "exactly the start set D2 predicts; any other disagreement is a violation. Bounds: <= 5 nodes, <= 3 observations (4 thorough).",
     "technique": "bounded-exhaustive enumeration of inputs x configurations against an all-walks explicit-state reference model",
 }
-BUDGET = {"quick": 420, "thorough": 3000}
+BUDGET = {"quick": 900, "thorough": 3000}
 RULE = ("cases = (graph, labels); each enumerates traces x families x cut-offs x noise. states = product states (road state, "
         "observation index) reached by the all-walks search, transitions = moves it evaluated, traces validated = optimal model walks "
         "re-scored through the implementation's first()/next(); non-trivial = at least two admissible walks with different "
